@@ -21,7 +21,7 @@ ITEM_LIMIT = {"quick": 900, "thorough": 3600}
 
 X, T, U = Space({"x": 1}), Space({"t": 1}), Space({"u": 1})
 MENU = ["pinn_static4", "pinn_grid3", "pinn_static5", "periodic_static", "periodic_grid", "periodic_empty_static", "integro", "hpm",
-        "ritz_static", "pinn_dom_t", "pinn_dom_k"]
+        "ritz_static", "pinn_dom_t", "pinn_dom_k", "pinn_shared_prod", "pinn_shared_alone", "pinn_defaults"]
 
 
 class World:
@@ -35,6 +35,10 @@ class World:
         self.model_t = tp.models.FCN(T, U, hidden=(3,))
         # ONE parameter-dependent domain, partially evaluated differently by two conditions
         self.dom_tk = tp.domains.Interval(X, 0.0, lambda t, k: 1.0 + t + k)
+        # ONE sampler object used by two conditions (alone, and as first factor of a product)
+        self.shared_sampler = tp.samplers.ExponentialIntervalSampler(self.dom_x, 4, exponent=2.0)
+        # two data functions and the residual share the keyword name k with DIFFERENT defaults
+        self.data_k = {"f": lambda x, k=2.0: k * x, "h": lambda x, k=5.0: k * x}
         self.data_t = {"g": lambda t: 3.0 * t + 1.0}
         self.data_t_orig = dict(self.data_t)
         self.f = lambda x: x ** 2 + 1.0
@@ -65,6 +69,18 @@ class World:
         def res_per_t(u_left, u_right, g_left, g_right):
             rec.append({"g_left": g_left.detach().clone(), "g_right": g_right.detach().clone(), "x": torch.zeros(len(g_left), 1)})
             return (u_left - u_right) + 0.1 * g_left - 0.2 * g_right
+        if kind == "pinn_shared_alone":
+            return Cn.PINNCondition(self.model_x, self.shared_sampler, res_pinn, data_functions=self.data, name=kind)
+        if kind == "pinn_shared_prod":
+            def res_sp(u, x, t):
+                rec.append({"f": x.detach().clone()})
+                return u - x * t
+            return Cn.PINNCondition(self.model_tx, self.shared_sampler * S.GridSampler(self.dom_t, 2), res_sp, name=kind)
+        if kind == "pinn_defaults":
+            def res_k(u, f, h, k=7.0):
+                rec.append({"f": f.detach().clone(), "h": h.detach().clone(), "k": torch.as_tensor(float(k))})
+                return u - 0.1 * f + 0.01 * h - 0.001 * k
+            return Cn.PINNCondition(self.model_x, S.GridSampler(self.dom_x, 3), res_k, data_functions=self.data_k, name=kind)
         if kind == "periodic_empty_static":
             return Cn.PeriodicCondition(self.model_t, self.dom_t, res_per_t, non_periodic_sampler=S.PointSampler.empty(),
                                         data_functions=self.data_t, name=kind)
@@ -188,6 +204,19 @@ def run_item(item):
             if len(losses.get(kind, [])) == 2 and kind == "periodic_static" and losses[kind][0] != losses[kind][1]:
                 viol("C14|not-repeatable|%s" % kind, "%s evaluated twice without an optimisation step: %s" % (kind, losses[kind]))
             res["outcomes"].append(kind)
+        # data functions / residual with the same keyword name and different defaults keep their own defaults
+        losses, rec, problems = run_history([("c", "pinn_defaults"), ("e", "pinn_defaults")])
+        res["evals"] += 1
+        res["states"].append("pinn_defaults")
+        for k, msg in problems:
+            viol("C14|%s" % k, msg)
+        xs = tp.samplers.GridSampler(World().dom_x, 3).sample_points().as_tensor
+        for r in rec.get("pinn_defaults", []):
+            if not torch.allclose(r["f"], 2.0 * xs) or not torch.allclose(r["h"], 5.0 * xs) or abs(float(r["k"]) - 7.0) > 1e-9:
+                viol("C14|shared-keyword-default", "data functions f(x,k=2), h(x,k=5) and residual(...,k=7) of ONE condition: f=%s (2x=%s), h=%s (5x=%s), k=%s" % (
+                    r["f"].reshape(-1).tolist(), (2 * xs).reshape(-1).tolist(), r["h"].reshape(-1).tolist(), (5 * xs).reshape(-1).tolist(), float(r["k"])))
+            else:
+                res["outcomes"].append("pinn_defaults")
         return res
 
     kinds = item["kinds"]
